@@ -577,7 +577,7 @@ class Mon:
             tname = gen.type_of(sr.simulation_setting.true_object)
             info = dict(worst, got=bool(result), want=want, results=tag, type=tname, estimator=label)
             if want:
-                key = f"physicality_check:{label}:para={int(worst['para'])}:fails-on-estimates-within-thresholds"
+                key = f"physicality_check:{label}:para={int(worst['para'])}:fails-without-enforced-constraint-violation"
             else:
                 key = f"physicality_check:{label}:para={int(worst['para'])}:passes-{why}-violation-beyond-threshold"
             ctx.truth("physicality-check", bool(result) == want, key=key, info=info)
@@ -1347,7 +1347,7 @@ def shards(tier, seed):
         for k in (2, 4):
             noises = ["depolarized", "lindbladian"] if not heavy or not q else (["depolarized"] if t == "gate" else ["lindbladian"])
             out.append({"kind": "flow", "type": t, "workers": k, "group": f"w:{t}", "n": n, "noises": noises,
-                        "reest": k == 2, "fresh": False, "weight": 100 + (20 if heavy else 0) + k})
+                        "reest": k == 2, "fresh": k == 4, "weight": 100 + (20 if heavy else 0) + k})
     # serial flows: more settings, fresh-process child, mixed noise methods
     for t in TYPES:
         heavy = t in ("gate", "mprocess")
